@@ -140,7 +140,7 @@ def run_case(case):
             os.makedirs(sub)
             out = os.path.join(sub, 'tagged.bam')
             spec = dict(base, out=out, trace_file=os.path.join(sub, 'trace.jsonl'), fault=fault, temp=sub)
-            rc, hung = run_driver(spec, sub, tag, timeout=25 if fault else 120)
+            rc, hung = run_driver(spec, sub, tag, timeout=40 if fault else 400)
             status_path = out.replace('.bam', '.status.txt')
             status = open(status_path).read().strip() if os.path.exists(status_path) else None
             acc.count('oracle:status_read')
